@@ -720,7 +720,8 @@ REFINED = [
     "the driver's oracles (bit-length bounds with a 1/1024-precise rational enclosure of log2 B; never-filter) satisfy the enclosure hypothesis",
     "integer/src/cmp.rs Ord for UBig / IBig, AbsOrd (4 impls), AbsEq (4 impls) and integer/src/third_party/num_order.rs NumOrd between UBig and IBig: "
     "executed through C05's mirrored cmp_same_len / cmp_in_place / Ord for TypedReprRef / Ord for IBig on the canonical word representation "
-    "(Model/Cross/IntOrd.lean, what the driver runs for every integer x integer entry) and proved equal to the value-level tables for every word size "
+    "(Model/Cross/IntOrd.lean, what the driver runs for every integer x integer entry with operands up to 2^17 bits; beyond that the proved-equal value-level "
+    "table, because C05's representation builder natWords is quadratic) and proved equal to the value-level tables for every word size "
     "by importing C05's ubig_cmp / ibig_cmp (Props/C14Link: num_partial_cmp_mirrored, abs_cmp_mirrored, ord_cmp_mirrored, num_ord_exact_words ...); "
     "every `compare l r` of an exact step is linked the same way (exact_step_is_mirrored_cmp)",
     "the no_std (table) log2_bounds estimators of integers and rationals: base/src/math/log.rs no_std impls for u8 / u16 / u32..u128, "
